@@ -356,6 +356,31 @@ func boundaries() []endpoint {
 				return c.su.CreateSubscription(ctx, &pb.CreateSubscriptionRequest{Id: "sub", PromiseId: "p", Timeout: int64(n), Recv: recvL, RequestId: "rid"})
 			}, "", 0})
 	}
+	// physical receivers: the JSON object in HTTP, the oneof in gRPC
+	recvP := &pb.Recv{Recv: &pb.Recv_Physical{Physical: &pb.PhysicalRecv{Type: "poll", Data: []byte(`{"group":"g","id":"i"}`)}}}
+	out = append(out, endpoint{"CreateCallback:physical-recv", t_api.CreateCallback, "POST", "/callbacks", rid, `{"Id":"cb","promiseId":"p","rootPromiseId":"root","timeout":9,"recv":{"type":"poll","data":{"group":"g","id":"i"}}}`,
+		func(c *clients) (any, error) {
+			return c.cb.CreateCallback(ctx, &pb.CreateCallbackRequest{Id: "cb", PromiseId: "p", RootPromiseId: "root", Timeout: 9, Recv: recvP, RequestId: "rid"})
+		}, "", 0})
+	out = append(out, endpoint{"CreateSubscription:physical-recv", t_api.CreateSubscription, "POST", "/subscriptions", rid, `{"Id":"sub","promiseId":"p","timeout":9,"recv":{"type":"poll","data":{"group":"g","id":"i"}}}`,
+		func(c *clients) (any, error) {
+			return c.su.CreateSubscription(ctx, &pb.CreateSubscriptionRequest{Id: "sub", PromiseId: "p", Timeout: 9, Recv: recvP, RequestId: "rid"})
+		}, "", 0})
+	// searches: every state filter, no tags / tags, sort order defaults
+	for _, stf := range []struct {
+		q string
+		s pb.SearchState
+	}{{"pending", pb.SearchState_SEARCH_PENDING}, {"resolved", pb.SearchState_SEARCH_RESOLVED}, {"rejected", pb.SearchState_SEARCH_REJECTED}, {"", pb.SearchState_SEARCH_ALL}} {
+		stf := stf
+		path := "/promises?id=p*&limit=3"
+		if stf.q != "" {
+			path += "&state=" + stf.q
+		}
+		out = append(out, endpoint{"SearchPromises:state=" + stf.q, t_api.SearchPromises, "GET", path, rid, "",
+			func(c *clients) (any, error) {
+				return c.p.SearchPromises(ctx, &pb.SearchPromisesRequest{Id: "p*", State: stf.s, Limit: 3, RequestId: "rid"})
+			}, "", 0})
+	}
 	for _, lim := range []int{1, 100} {
 		lim := lim
 		out = append(out, endpoint{fmt.Sprintf("SearchPromises:limit=%d", lim), t_api.SearchPromises, "GET", fmt.Sprintf("/promises?id=p*&limit=%d", lim), rid, "",
